@@ -20,8 +20,10 @@ SPEC = {
             "5th case is a protocol sequence (open/apply with honest, stale and wrong expected versions, disk rewritten "
             "by the harness to emulate stale unlocked reads, delete/create/rename in between, folder renames to derived "
             "names); after every rename/delete that changed the tree a follow-up open or stale save on every path ever "
-            "opened (tracked-document bookkeeping); 11 scripted corpus cases (witnesses of repaired/open defects and of "
-            "seeded mutants); non-trivial = the tree "
+            "opened (tracked-document bookkeeping; a save based on a snapshot from before a delete / rename / "
+            "re-create must conflict); 14 scripted corpus cases (witnesses of repaired/open defects and of "
+            "seeded mutants); a rename_symbol with a buffer that differs from the file at the end of every case that "
+            "has r.st, and the scripted stale-buffer replay, must be refused without a write; non-trivial = the tree "
             "changed or a path went through a link; distinct = by hash of the case's operation lines",
     "trusted_base": [
         "Lean 4.33.0 kernel; axioms per theorem listed under 'theorems'",
@@ -42,12 +44,19 @@ SPEC = {
         "by the model's primitives is not proved",
         "the file system changes only through the API while an operation runs (no symlink swapped between check and use)",
         "Unix path syntax (backslash is an ordinary character); symbolic links with absolute targets in the generator",
-        "versions stay below u64::MAX: traces shorter than 2^63 steps (hypothesis of the protocol theorems)",
+        "versions stay below u64::MAX: hypothesis traceCost tr + 2 < u64::MAX of the protocol theorems (2 per step, "
+        "k + 2 for a foreign document retired at version k)",
         "a 'read' is file content or a directory listing; the metadata look-ups of canonicalize/exists made while "
         "checking a path are not counted as reads",
-        "the version protocol theorems cover open_source / apply_source and the tracked-text overrides of the analysis "
-        "requests on ONE document key per file; delete_entry / create_entry, rename_symbol and a second key for the same "
-        "file (in-root directory link) are outside it (open findings with proved counterexamples)",
+        "the version protocol theorems cover open_source / apply_source, the tracked-text overrides of the analysis "
+        "requests, delete_entry / create_entry / rename_entry away and onto the path, evictions of the tracked document, "
+        "the version floor shared with other documents, and rename_symbol, on ONE document key per file; a second key "
+        "for the same file (in-root directory link) is outside it (open finding C19-alias-keys with a proved "
+        "counterexample)",
+        "rename_symbol in the protocol model is its version bookkeeping (refuse a differing buffer, else read-modify-"
+        "write under one lock hold with an arbitrary result text); the analysis that computes the text is not modelled, "
+        "and its tie to the code is the scripted replay and the per-case stale-buffer probe (oracles), not the "
+        "differential comparison",
     ],
 }
 
@@ -63,20 +72,25 @@ MANIFEST = {
                   "for every well-formed file system with links anywhere, every session table and every argument); "
                   "c19_gates_first / c19_refused_keeps_documents (unless write_enabled and a live editor token, the file "
                   "system, tracked documents and audit log are unchanged and no mutation was attempted before the "
-                  "refusal); c19_no_lost_update_partial, c19_version_chain_partial, c19_disk_is_last_success_partial (all interleavings "
-                  "of any number of clients' unlocked reads and locked sections, arbitrary expected versions and "
-                  "tracked-text overrides). Each run executes the model and the real WebIdeState on the same generated "
+                  "refusal); c19_no_lost_update_partial, c19_version_chain_partial, c19_one_success_per_version_partial, "
+                  "c19_disk_is_last_success_partial (all interleavings "
+                  "of any number of clients' unlocked reads and locked sections, arbitrary expected versions, "
+                  "tracked-text overrides, deletions / re-creations / evictions of the document, retirements of other "
+                  "documents and rename_symbol calls: versions are never handed out twice, every successful write "
+                  "found the previous success's content - or no file after a delete_entry - on disk). Each run executes the model and the real WebIdeState on the same generated "
                   "trees and operation sequences and compares every answer and the whole-tree diff after every "
                   "operation, independently evaluates confinement, authorisation, no-leak and no-lost-update "
                   "oracles on the implementation, and runs real-thread contention (4 editor sessions released by a "
                   "barrier on the same expected version, hundreds of rounds): at most one success per version, v -> v+1, "
                   "file = content of that success.",
     "level_note": "Partial where the code violates the property: the no-lost-update / chain / last-success theorems hold "
-                  "for the versioned steps only; delete_entry+create_entry (version reuse), rename_symbol (no expected "
-                  "version) and a write through a second document key of the same file (alias through an in-root "
-                  "directory link, needs a stale read) break it - proved counterexamples "
-                  "c19_counterexample_version_reuse / _rename_symbol_bypass / _alias_keys, replayed on the real code on "
-                  "every run and listed as open known findings. Stale unlocked reads are emulated sequentially (the "
+                  "for every step on one document key; a write through a second document key of the same file (alias "
+                  "through an in-root directory link, needs a stale read) breaks it - proved counterexample "
+                  "c19_counterexample_alias_keys, replayed on the real code on every run and listed as an open known "
+                  "finding. The former findings C19-version-reuse (delete_entry + create_entry restarted versions at 1) "
+                  "and C19-rename-symbol-bypass (rename_symbol wrote a stale buffer without a version check) are "
+                  "repaired in /repo; their witnesses (corpus cases 4, 11-13; the rename_symbol replay) are replayed on "
+                  "every run and the old behaviour is a violation. Stale unlocked reads are emulated sequentially (the "
                   "harness shows the locked section a content the file really had after the client's snapshot). "
                   "Trusted, not proved: the hand-written model and the abstract std::fs semantics (validated only by the "
                   "differential run, whose generator bounds what it sees); well-formedness of the file system is a "
